@@ -717,7 +717,7 @@ func runC03_7(c *core.Ctx) {
 			if !flow.IsCall(f.Info, call, trig) || len(call.Args) != 3 {
 				continue
 			}
-			fl, ok := ast.Unparen(call.Args[1]).(*ast.FuncLit)
+			fl, ok := seeThrough(f, call.Args[1]).(*ast.FuncLit)
 			if !ok {
 				continue
 			}
@@ -896,7 +896,7 @@ func runC03_11(c *core.Ctx) {
 				continue
 			}
 			construct := "Trigger(" + exprStr(call.Args[0]) + ", " + exprStr(call.Args[1]) + ")"
-			if _, isLit := ast.Unparen(call.Args[1]).(*ast.FuncLit); isLit {
+			if _, isLit := seeThrough(f, call.Args[1]).(*ast.FuncLit); isLit {
 				construct = "Trigger(" + exprStr(call.Args[0]) + ", func literal)"
 			}
 			// priority must be a constant
